@@ -13,7 +13,8 @@
 (* A read is ENABLED only if the address is covered by a declared          *)
 (* precedent of the reader AND by one of its graph predecessors, where a   *)
 (* range covers its cells and sub-rectangles; final is enabled only if     *)
-(* every influencing rectangle is covered by an ancestor.  A trace that    *)
+(* every influencing rectangle is covered by an ancestor and every cell of *)
+(* the model inside one is an ancestor itself.  A trace that               *)
 (* cannot be consumed to its end is rejected.                              *)
 (***************************************************************************)
 EXTENDS Naturals, Sequences, TLC, TLCExt, Json, IOUtils
@@ -48,6 +49,9 @@ Read(e) == /\ e.ev = "read"
 
 Final(e) == /\ e.ev = "final"
             /\ \A r \in ToSet(e.influences) : Covered(ToSet(e.ancestors), r)
+            \* a cell of the model inside an influencing rectangle is an ancestor
+            \* itself (being covered by a range node which lacks its edge is not enough)
+            /\ \A c \in ToSet(e.infcells) : c \in ToSet(e.ancestors)
             /\ UNCHANGED <<decl, gp>>
 
 Next == /\ l <= Len(Traces[tid])
